@@ -35,7 +35,7 @@ N_STREAMS = {"quick": 420, "thorough": 26000}  # per shard, 16 shards
 
 
 def plan(tier: str, seed: int) -> list[dict]:
-    return [{"kind": "gen", "n": N_STREAMS[tier]} for _ in range(16)]
+    return [{"kind": "suite"}] + [{"kind": "gen", "n": N_STREAMS[tier]} for _ in range(16)]
 
 
 def make_stream(rng, cfg) -> tuple[bytes, list]:
@@ -113,6 +113,11 @@ def check_stream(cfg, stream: bytes, spec, ctx, states: set | None = None) -> bo
 
 
 def run(shard: dict, ctx) -> None:
+    if shard.get("kind") == "suite":
+        from vf.mon import suite
+
+        suite.run_suite(ctx, "C01")
+        return
     rng = ctx.rng("c01")
     states: set = set()
     for i in range(shard["n"]):
